@@ -1,0 +1,103 @@
+//go:build verif
+
+package cpr
+
+// Verification hooks (build tag `verif`).  They observe and perturb scheduling; they do not
+// change what the program computes.  See verif_off.go for the versions compiled by default.
+
+import (
+	"fmt"
+	"os"
+	"runtime"
+	"strconv"
+	"sync"
+	"sync/atomic"
+	"time"
+)
+
+var (
+	verifSchedOn   bool
+	verifSchedSeed uint64
+	verifCalls     atomic.Uint64
+
+	verifTraceMu   sync.Mutex
+	verifTraceFile *os.File
+	verifTraceSeq  uint64
+
+	verifSeqCount atomic.Int64
+)
+
+func init() {
+	if s := os.Getenv("KNUT_VERIF_SCHED"); s != "" {
+		if v, err := strconv.ParseUint(s, 10, 64); err == nil {
+			verifSchedOn, verifSchedSeed = true, v
+		}
+	}
+	if p := os.Getenv("KNUT_VERIF_TRACE"); p != "" {
+		if f, err := os.OpenFile(p, os.O_WRONLY|os.O_CREATE|os.O_APPEND, 0o644); err == nil {
+			verifTraceFile = f
+		}
+	}
+}
+
+func verifMix(x uint64) uint64 {
+	x += 0x9e3779b97f4a7c15
+	x = (x ^ (x >> 30)) * 0xbf58476d1ce4e5b9
+	x = (x ^ (x >> 27)) * 0x94d049bb133111eb
+	return x ^ (x >> 31)
+}
+
+// VerifYield perturbs the schedule at a synchronisation point.  With KNUT_VERIF_SCHED=<seed> it
+// yields the processor or sleeps 0-200 microseconds, chosen by a PRNG keyed by the seed, the
+// site and the number of calls so far.
+func VerifYield(site string) {
+	if !verifSchedOn {
+		return
+	}
+	n := verifCalls.Add(1)
+	h := verifSchedSeed
+	for i := 0; i < len(site); i++ {
+		h = (h ^ uint64(site[i])) * 0x100000001b3
+	}
+	r := verifMix(h ^ (n * 0x9e3779b97f4a7c15))
+	switch r % 4 {
+	case 0:
+		// run on
+	case 1:
+		runtime.Gosched()
+	default:
+		time.Sleep(time.Duration((r>>8)%201) * time.Microsecond)
+	}
+}
+
+// VerifSeqID numbers the invocations of Seq within the process (1, 2, ...).
+func VerifSeqID() int {
+	return int(verifSeqCount.Add(1))
+}
+
+type verifIdentified interface{ VerifID() string }
+
+func verifItemID(item any) string {
+	switch v := item.(type) {
+	case verifIdentified:
+		return v.VerifID()
+	case string:
+		return strconv.Quote(v)
+	default:
+		return fmt.Sprintf("%T", item)
+	}
+}
+
+// VerifEvent appends the line "<seq#> <stage> <phase> <item id>" to the file named by
+// KNUT_VERIF_TRACE.  The sequence number is assigned and the line written under one mutex, so
+// the file order is a linearisation of the events.
+func VerifEvent(stage int, phase string, item any) {
+	if verifTraceFile == nil {
+		return
+	}
+	id := verifItemID(item)
+	verifTraceMu.Lock()
+	verifTraceSeq++
+	fmt.Fprintf(verifTraceFile, "%d %d %s %s\n", verifTraceSeq, stage, phase, id)
+	verifTraceMu.Unlock()
+}
